@@ -610,3 +610,39 @@ package ring
 //@ func SubRing.IMForm
 //@   property C01
 //@   wraps imformvec(p1, p2, s.Modulus, s.MRedConstant)
+
+// ---- copy constructors (property C10; BasisExtender copies also feed C02) ----
+//@ copy BasisExtender.ShallowCopy
+//@   property C10 C02
+//@   shared ringQ ringP constantsQtoP constantsPtoQ modDownConstantsQtoP modDownConstantsPtoQ
+//@   fresh buffQ buffP
+
+//@ copy UniformSampler.WithPRNG
+//@   property C10 C17
+//@   fresh baseSampler randomBuffer
+
+//@ copy UniformSampler.AtLevel
+//@   property C10 C17
+//@   copied baseSampler
+//@   shared randomBuffer
+
+//@ copy GaussianSampler.AtLevel
+//@   property C10 C17
+//@   copied baseSampler
+//@   shared randomBuffer xe montgomery
+
+//@ copy baseSampler.AtLevel
+//@   property C10 C17
+//@   shared prng
+//@   copied baseRing
+
+//@ copy Ring.AtLevel
+//@   property C10
+//@   shared SubRings ModulusAtLevel RescaleConstants
+//@   rebound level=level
+
+//@ copy TernarySampler.AtLevel
+//@   property C10 C17
+//@   copied baseSampler
+//@   shared matrixProba matrixValues invDensity hw
+//@   fresh sample
